@@ -1060,18 +1060,25 @@ func (rs *s3ClientStorage) ListMultipartUploads(ctx context.Context, bucketName 
 	commonPrefixes := sliceutils.Map(func(commonPrefix types.CommonPrefix) string {
 		return *commonPrefix.Prefix
 	}, listMultipartUploadsResult.CommonPrefixes)
+	// S3 omits the optional response elements (the echoed markers, prefix and
+	// delimiter when they were not requested, and the next markers when the
+	// listing is not truncated), which the SDK reports as nil.
+	resultBucketName := bucketName
+	if listMultipartUploadsResult.Bucket != nil {
+		resultBucketName = storage.MustNewBucketName(*listMultipartUploadsResult.Bucket)
+	}
 	return &storage.ListMultipartUploadsResult{
-		BucketName:         storage.MustNewBucketName(*listMultipartUploadsResult.Bucket),
-		KeyMarker:          *listMultipartUploadsResult.KeyMarker,
-		UploadIdMarker:     *listMultipartUploadsResult.UploadIdMarker,
-		Prefix:             *listMultipartUploadsResult.Prefix,
-		Delimiter:          *listMultipartUploadsResult.Delimiter,
-		NextKeyMarker:      *listMultipartUploadsResult.NextKeyMarker,
-		NextUploadIdMarker: *listMultipartUploadsResult.NextUploadIdMarker,
-		MaxUploads:         *listMultipartUploadsResult.MaxUploads,
+		BucketName:         resultBucketName,
+		KeyMarker:          aws.ToString(listMultipartUploadsResult.KeyMarker),
+		UploadIdMarker:     aws.ToString(listMultipartUploadsResult.UploadIdMarker),
+		Prefix:             aws.ToString(listMultipartUploadsResult.Prefix),
+		Delimiter:          aws.ToString(listMultipartUploadsResult.Delimiter),
+		NextKeyMarker:      aws.ToString(listMultipartUploadsResult.NextKeyMarker),
+		NextUploadIdMarker: aws.ToString(listMultipartUploadsResult.NextUploadIdMarker),
+		MaxUploads:         aws.ToInt32(listMultipartUploadsResult.MaxUploads),
 		CommonPrefixes:     commonPrefixes,
 		Uploads:            uploads,
-		IsTruncated:        *listMultipartUploadsResult.IsTruncated,
+		IsTruncated:        aws.ToBool(listMultipartUploadsResult.IsTruncated),
 	}, nil
 }
 
